@@ -186,7 +186,8 @@ def lemma_shapes():
         "openiso": "Literal('[').suppress()", "closeiso": "Literal(']').suppress()",
         "openion": "Literal('{').suppress()", "closeion": "Literal('}').suppress()",
         "opengrp": "space + Literal('(').suppress() + space", "closegrp": "space + Literal(')').suppress() + space",
-        "grammar": "Optional(formula, default=Formula()) + StringEnd()",
+        "grammar": "(formula | empty) + StringEnd()",
+        "empty": "Empty().setParseAction(lambda s, l, t: Formula())",
         "formula": "compound | ungrouped_mixture | grouped_mixture",
         "mixture": "compound | grouped_mixture",
     }
@@ -207,6 +208,30 @@ def lemma_shapes():
 
 
 L_SHAPES = Lemma("grammar.shapes", lemma_shapes)
+
+
+def lemma_no_shared_defaults():
+    """tokens that pyparsing inserts by itself (`Optional(..., default=X)`) are the SAME object X in every parse:
+    X must be an immutable constant, otherwise one caller's edit of its result is seen by the next parse
+    (the blank-string defect repaired in /repo 0795108 was `default=Formula()`)"""
+    ext = extract.extract(GRAMMAR)
+    lemma_no_shared_defaults.reads = [GRAMMAR]
+    st = State()
+    n = 0
+    for node in ast.walk(ext.node):
+        if isinstance(node, ast.Call):
+            for kw in node.keywords:
+                if kw.arg == "default":
+                    n += 1
+                    v = kw.value
+                    const = isinstance(v, ast.Constant) or (isinstance(v, ast.UnaryOp) and isinstance(v.operand, ast.Constant))
+                    st.oblige("default #%d of formula_grammar is an immutable constant" % n, z3.BoolVal(const), kind="lemma",
+                              info={"default": ast.unparse(v), "line": node.lineno}, assume_after=False)
+    st.oblige("the grammar has defaulted optional parts (vacuity guard)", z3.BoolVal(n >= 4), kind="lemma", info={"found": n}, assume_after=False)
+    return [st]
+
+
+L_NO_SHARED_DEFAULTS = Lemma("grammar.no-shared-defaults", lemma_no_shared_defaults)
 
 
 # ------------------------------------------------------------------------------ parse actions
